@@ -70,10 +70,9 @@ def build(targets, log):
     lock = open(os.path.join(common.VERIF, ".build.lock"), "w")
     fcntl.flock(lock, fcntl.LOCK_EX)
     try:
-        from harness import extract_constants
-        ok, msg = extract_constants.regenerate()
+        ok, msg = common.regenerate_all()
         if not ok:
-            return False, "constants extractor: " + msg
+            return False, msg
         if common.write_coqproject() or not os.path.exists(os.path.join(common.COQ, "Makefile")):
             subprocess.run(["coq_makefile", "-f", "_CoqProject", "-o", "Makefile"], cwd=common.COQ,
                            capture_output=True, text=True)
